@@ -354,6 +354,19 @@ impl<T: Into<J>> From<Vec<T>> for J {
     }
 }
 
+/// At most `n` bytes of `s`, cut at a character boundary (monitors render what they observed, and what the code
+/// under test returns may well contain multi-byte text: never slice a rendering at a fixed byte index).
+pub fn trunc(s: &str, n: usize) -> &str {
+    if s.len() <= n {
+        return s;
+    }
+    let mut k = n;
+    while k > 0 && !s.is_char_boundary(k) {
+        k -= 1;
+    }
+    &s[..k]
+}
+
 pub fn hex(b: &[u8]) -> String {
     let mut s = String::with_capacity(b.len() * 2);
     for x in b {
